@@ -29,7 +29,7 @@ STR_ALPHA = "abcXYZ 019_-.,:;!?'\"<>&/(){}[]=+*\xe9中\U0001F600"
 
 
 def texts(max_size=6):
-    return st.text(alphabet=STR_ALPHA, max_size=max_size)
+    return st.one_of(st.text(alphabet=STR_ALPHA, max_size=max_size), st.text(alphabet=STR_ALPHA, max_size=max_size), st.sampled_from(["</script>", "</SCRIPT >", "<!--", "a</script", "<script>", "]]>", "&lt;", "${x}", "`"]))
 
 
 JSX_EXPRS = [
